@@ -1,14 +1,38 @@
+/- epdrv: one operation per input line (tab separated), one result line per operation.
+   Operation names are `<family>.<name>` (run by both sides), `spec.<family>.<name>` (reference
+   semantics, Lean only) or `impl.<family>.<name>` (implementation only, ignored here). -/
 import EpModel.Driver.Ck
-import EpModel.Driver.SpecOps
-/- epdrv: one operation per input line (tab separated), one result line per operation. -/
+import EpModel.Driver.Bf
+import EpModel.Driver.Opt
+import EpModel.Driver.Ext
+import EpModel.Driver.Frag
+import EpModel.Driver.Io
+import EpModel.Driver.View
+import EpModel.Driver.Enc
+import EpModel.Driver.Set
+import EpModel.Driver.Build
+import EpModel.Driver.Dec
 open EpModel.Driver
 
 def dispatch (op : String) (args : List String) : String :=
-  let fam := (op.splitOn ".").headD ""
+  let parts := op.splitOn "."
+  let fam := match parts with
+    | "spec" :: f :: _ => f
+    | f :: _ => f
+    | [] => ""
   let r : Option String :=
     match fam with
     | "ck" => Ck.run op args
-    | "spec" => SpecOps.run op args
+    | "bf" => Bf.run op args
+    | "opt" => Opt.run op args
+    | "ext" => Ext.run op args
+    | "frag" => Frag.run op args
+    | "io" => Io.run op args
+    | "view" => View.run op args
+    | "enc" => Enc.run op args
+    | "set" => Set.run op args
+    | "build" => Build.run op args
+    | "dec" => Dec.run op args
     | _ => none
   match r with
   | some s => s
